@@ -60,6 +60,7 @@ EXPORT void* spqlios_keep_or_free(void* ptr, void* ptr2);
 // before an object is created, so that the generic-C dispatch can be exercised.
 EXPORT int spqlios_verif_cpu_allows(const char* feature);
 EXPORT void spqlios_verif_set_cpu_mask(int allow_accelerated);
+EXPORT void spqlios_verif_set_cpu_features(int allow_avx2, int allow_fma);
 #ifdef __x86_64__
 #undef CPU_SUPPORTS
 #define CPU_SUPPORTS(xxxx) (spqlios_verif_cpu_allows(xxxx) && __builtin_cpu_supports(xxxx))
